@@ -681,14 +681,31 @@ def reachable_without_running(A, state):
 
 
 # =============================================================================================
+def residual_blocks(body):
+    """blocks that propagate an error with `?` (call FromResidual::from_residual) or diverge"""
+    out = set()
+    for blk in body.blocks:
+        if blk["cleanup"]:
+            continue
+        t = blk["term"]["t"]
+        if t["k"] == "call" and ("from_residual" in (M.callee_name(t) or "") or t["t"] < 0):
+            out.add(blk["i"])
+    return out
+
+
 def loop_region(body, head):
     """natural loop of `head` plus the blocks of its early-exit paths up to the continuation block
-    (the first block common to all ways out of the loop).  Returns (region, continuation)."""
+    (the first block common to all regular ways out of the loop; `?`/panic exits do not count).
+    Returns (region, continuation)."""
     loop = body.natural_loop(head)
+    errs = residual_blocks(body)
+    rets = set(returns_of(body))
     exits = []
     for b in loop:
         for s_ in body.succs(b):
             if s_ not in loop and body.term(s_)["k"] != "unreachable":
+                if s_ in errs or not (rets & body.reachable(s_, errs)):
+                    continue
                 exits.append(s_)
     cont = None
     if exits:
